@@ -2,6 +2,8 @@
 import importlib
 
 REGISTRY = {
+    "C17": {"engine": "sim.rollsim", "level": "exploration",
+            "tiers": {"quick": {"runs": 800, "wall": 300}, "thorough": {"runs": 30000, "wall": 3000}}},
     "C12": {"engine": "sim.vecsim", "level": "exploration",
             "tiers": {"quick": {"runs": 4000, "wall": 300}, "thorough": {"runs": 150000, "wall": 3000}}},
     "C13": {"engine": "sim.vecsim", "level": "fault_enumeration",
@@ -64,6 +66,9 @@ META = {
     "C13": {"technique": _T + "same simulator with a fault plan (sub-environment raises / stalls past the timeout / dies at (worker, command, call number)), misuse call sequences, deadlock detection = hang",
             "design_ref": "DESIGN.md 4 (C13), appendix A", "level_text": "call sequences are sampled; for a sampled sequence the single-fault space (worker x command x call number x {raise, stall, die}) is enumerated completely in the thorough tier (a slice in 10% of quick cases), double faults are sampled; a hang is a Deadlock raised by the scheduler, promptness is measured on the virtual clock",
             "level_note": "not demanded: usability after a timeout / dead worker, a particular exception for a dead worker; the documented misuse errors and exception-type propagation are"},
+    "C17": {"technique": _T + "scripted on-policy rollouts with id-carrying observations, recorder at the get_experiences_samples seam, per-(agent, env) reference GAE; PPO also through the real train_on_policy on a scripted vector environment",
+            "design_ref": "DESIGN.md 4 (C17)", "level_text": "seeded exploration of rollout length 1-12, 1-4 environments, 1-3 agents of which 1-3 share a policy, gamma/lambda in [0,1] incl. 0 and 1, episode ends at the first / last step / final next_done / everywhere; every flattened training row is attributed through its observation and compared with the reference estimate, old value, old log-prob and action of that (agent, env, step)",
+            "level_note": "no repository hook was needed (existing module-level seam); image-free observation kinds so that the bootstrap value does not depend on batching; IPPO at the learn() level, the multi-agent loop is exercised under C20"},
     "C19": {"technique": _T + "bandit world: decisions interleaved with learn / mutation / clone / checkpoint round trips, independent autograd features and a float64 Gram accumulator as reference",
             "design_ref": "DESIGN.md 4 (C19)", "level_text": "seeded exploration for NeuralUCB and NeuralTS, lambda in {0.5, 1, 2}, masks, vector and image contexts; after every decision sigma_inv @ (lambda I + sum g g^T) = I within 5e-3, symmetric, positive definite, right size, exp_layer identity",
             "level_note": "tolerance 5e-3 absolute on float32 sigma_inv; the model restarts whenever the library re-initialises the matrix"},
